@@ -202,7 +202,7 @@ pub fn cases(prop: &str, tier: Tier, seed: u64) -> Vec<CaseDesc> {
                     out.push(CaseDesc { spec: spec.clone(), scenario: scn.to_string() });
                     if b.starts_with("leb:") {
                         // census: every scenario on every boundary module
-                        for s in ["rt:emit;cfg=27", "rt:emit,gc;cfg=27", "rt:emit,ins;cfg=27", "rt:emit,addfn;cfg=27", "rt:emit,reedit;cfg=27"] {
+                        for s in ["rt:emit;cfg=27", "rt:emit,gc;cfg=27", "rt:emit,ins;cfg=27", "rt:emit,addfn;cfg=27", "rt:emit,reedit;cfg=27", "rt:emit,ghostimp;cfg=27"] {
                             if s != scn {
                                 out.push(CaseDesc { spec: spec.clone(), scenario: s.to_string() });
                             }
@@ -226,6 +226,8 @@ pub fn cases(prop: &str, tier: Tier, seed: u64) -> Vec<CaseDesc> {
                 out.push(CaseDesc { spec, scenario: format!("rt:emit,gc,probe{};cfg={}", if i % 4 == 3 { ",ins" } else { "" }, if i % 2 == 0 { 27 } else { 91 }) });
             }
             out.extend(with_scenario(crate::census::op_census_specs(), "rt:emit,gc,probe;cfg=90"));
+            // an imported function without an import entry in the arena, on the LEB-boundary function counts
+            out.extend(with_scenario(crate::census::leb_specs(false), "rt:emit,probe,ghostimp;cfg=90"));
             // function entries with three- and four-byte size prefixes: bodies beyond 2^14, 2^20 and 2^21 bytes
             for s in ["lebb:2:6:20000", "lebb:1:4:1100000", "leb:16383:8:1", "leb:16384:8:1", "leb:16385:8:1"] {
                 out.push(CaseDesc { spec: s.to_string(), scenario: "rt:emit,gc,probe;cfg=90".to_string() });
